@@ -107,6 +107,30 @@ def step (s : St) (ws : List String) : St × String :=
           ({ s with parent := v, fresh := s.fresh + 1 }, s!"ok {hs} {tss}")
       | _, _, _ => (s, "bad-op")
     | _, _ => (s, "bad-op")
+  | ["build", t0, d, h, g, e, mp] =>
+    -- `build <T0> <d> <parent height> <MinBlockGap> <MinEmptyBlockGap> <mempool>`: parent header
+    -- timestamp T0-d; mempool: `-` or a string over v (included) / b r x (dropped)
+    match parseI64 t0, parseI64 d, h.toNat?, parseI64 g, parseI64 e with
+    | some t0, some d, some h, some g, some e =>
+      let kinds : Option (List MTx) :=
+        if mp == "-" then some [] else
+        allSome (mp.toList.map fun c =>
+          if c == 'v' then some MTx.included
+          else if c == 'b' || c == 'r' || c == 'x' then some MTx.dropped else none)
+      match kinds with
+      | some kinds =>
+        if h ≥ 18446744073709551616 then (s, "bad-op") else
+        let parent : Block := { height := h, ts := t0 - d, numTxs := 0, stateRoot := 0 }
+        match buildBlock t0 (fun _ => { minBlockGap := g, minEmptyBlockGap := e }) parent 7 kinds with
+        | .error .tooEarly => (s, "err early")
+        | .error .noTxs => (s, "err notxs")
+        | .ok b =>
+          let delta := b.ts - parent.ts
+          let cls := if delta < g then "lt-gap" else if delta < e then "lt-empty" else "ge-empty"
+          let rootOk := decide (b.stateRoot = 7)
+          (s, s!"ok {b.height} {cls} {b.numTxs} root={rootOk}")
+      | none => (s, "bad-op")
+    | _, _, _, _, _ => (s, "bad-op")
   | _ => (s, "bad-op")
 
 def machine : Machine := { σ := St, init := {}, step := step }
